@@ -24,7 +24,10 @@
 (*     normalised URL when the known-endpoints tree matches the URL, otherwise the host) with per-status counts        *)
 (*     [runner_test.go: twitter.com/users/{id} vs api.com; feature: endpoint_stat count / count_by_status_code].       *)
 (*     Which URLs the tree matches is an *input* (the tree answers it); the partition is by the answer at the time     *)
-(*     the transaction was processed - counts are never moved or dropped when the tree changes later.                  *)
+(*     the transaction was processed - counts are never moved or dropped when the tree changes later.  The plugin      *)
+(*     hands each chunk to discovery first, which inserts the chunk's URLs into the tree, so that in the assembled     *)
+(*     plugin an unknown URL is its own endpoint and the host fall-back of the unit test never applies; whether the    *)
+(*     lookup happens before or after that insertion is not stated anywhere: both answers are accepted (per chunk).    *)
 (*  R5 `remedy_action_stats[action]` counts the transactions on which any remedy took that action (once each).         *)
 (*  R6 Batching is immaterial.  The figures are a function of the set of transactions seen since the plugin            *)
 (*     started, not of how fluent-bit chunked them [utils/combine.go "Semigroup pattern"; runner_test.go adding to     *)
